@@ -6,7 +6,7 @@ cd "$(dirname "$0")/.."
 export GOFLAGS=-mod=mod GOPROXY=off GOSUMDB=off GOTOOLCHAIN=local
 mkdir -p .cache evidence replays
 # forbidden vernacular anywhere in the development
-if grep -rnE '\b(Admitted|admit|Axiom|Parameter|Conjecture|Unset Guard Checking|bypass_check|Admit Obligations)\b' coq --include='*.v' | grep -v '^coq/gen/' ; then
+if grep -rnE '\b(Admitted|admit|Axiom|Parameter|Conjecture|Unset Guard Checking|bypass_check|Admit Obligations)\b' coq --include='*.v' ; then
   echo "setup: forbidden vernacular found" >&2; exit 1
 fi
 python3 - <<'PY'
